@@ -47,6 +47,7 @@ class Contract:
     note: str = ''
     lemma: bool = False                        # pure spec lemma: no code, goal must be valid
     at_calls: Dict[str, Any] = field(default_factory=dict)   # call-site assertions keyed by the source text of the callee expression
+    decorators: List[Any] = field(default_factory=list)   # [(source text of a decorator the function must carry, [props])]
     accepts: List[str] = field(default_factory=list)   # documented keyword parameters the function must accept
     optional: bool = False                     # the function may be absent (e.g. a method a dataclass generates unless written by hand)
     bounded: bool = False                      # decided only by the bounded run-time contract check (never counted as proved)
@@ -64,6 +65,10 @@ class Contract:
         if self.no_raise:
             ps |= set(self.no_raise)
         for _l, p, _k in self.ensures:
+            ps |= set(p)
+        for _d, p in (self.decorators or []):
+            ps |= set(p)
+        for _k2, (_lam, p) in (self.at_calls or {}).items():
             ps |= set(p)
         return sorted(ps)
 
@@ -154,7 +159,7 @@ class Sidecar:
                 con.at_calls = {self._lit(kk): (vv.elts[0], self._lit(vv.elts[1])) for kk, vv in zip(v.keys, v.values)}
             elif k == 'variants':
                 con.variants = {self._lit(kk): vv for kk, vv in zip(v.keys, v.values)}
-            elif k in ('total', 'result_kind', 'result_fresh', 'result_opaque', 'preamble', 'slices', 'raises_assumed', 'bounded', 'optional', 'accepts', 'mutable', 'frame', 'props', 'total_attr_roots', 'trusted', 'note', 'uses_old'):
+            elif k in ('total', 'result_kind', 'result_fresh', 'result_opaque', 'preamble', 'slices', 'raises_assumed', 'bounded', 'optional', 'accepts', 'mutable', 'frame', 'props', 'total_attr_roots', 'trusted', 'note', 'uses_old', 'decorators'):
                 setattr(con, k, self._lit(v))
             elif k == 'goal' and is_lemma:
                 con.ensures = self._clauses(v, 'lemma')
@@ -269,6 +274,18 @@ class Engine(Core, Expr, Calls, Builtins, Stmts):
             return self.verify_lemma(con)
         if con.table:
             return self.verify_table(con)
+        if con.key.endswith('@decorators'):
+            # structure-only contract: which decorators the function carries (e.g. make_converter is memoised in the mode under contract)
+            fi = self.idx.func(con.key[:-len('@decorators')])
+            self.cur_func_key = con.key
+            have = [ast.unparse(d) for d in fi.node.decorator_list]
+            for dec_src, dec_props in (con.decorators or []):
+                self.emit(Obligation(con.key, 'decorator', dec_src[:40], dec_props, [], z3.BoolVal(have == [dec_src]),
+                                     origin=f"the function is decorated with exactly @{dec_src} (has: {', '.join('@' + h for h in have) or 'none'})",
+                                     path_kind='table'))
+            self.exit_pcs = []
+            return {'key': con.key, 'paths': 1, 'returns': 1, 'raises': 0, 'exec_s': time.time() - t0,
+                    'lines': [fi.lineno, fi.lineno], 'sha': fi.sha}
         fi = self.idx.func(con.key)
         th = self.th
         self.cur_module, self.cur_qual, self.cur_class = fi.module, fi.qualname, fi.cls
